@@ -68,7 +68,10 @@ T2R == FunT(FunT(B,B), FunT(FunT(TA,B), B))
 T2G == FunT(FunT(B,B), FunT(FunT(B,B), B))
 T2D == FunT(B, FunT(FunT(TA,B), B))
 T2P == FunT(FunT(TA,B), FunT(FunT(TB,B), B))
-Ov2Types == {T2L, T2R, T2G, T2D, T2P}
+\* DISJOINT from all of the above although its two type variables are instantiated with the same type constructors (fun, fun) as
+\* in T2L / T2R / T2G / T2P: a record of instances must not be keyed by constructor names
+T2E == FunT(FunT(B,FunT(B,B)), FunT(FunT(B,B), B))
+Ov2Types == {T2L, T2R, T2G, T2D, T2P, T2E}
 BaseTypes == {B, FunT(B,B), FunT(TA,B), FunT(TA,TA)}
 ConstTypes(nm) == IF nm = "neg" THEN {FunT(B,B)}
                   ELSE IF nm = "ov2" THEN {T2L}
@@ -114,8 +117,10 @@ VarsFor(T) == LET As == ArgTys(T) IN [i \in 1..Len(As) |-> VarAt(i, As[i])]
 HistTypes(nm) == IF nm = "ov2" THEN Ov2Types ELSE IF nm = "ov" THEN {B, FunT(B,B), FunT(TA,TA), FunT(TA,B)} ELSE {B, FunT(B,B)}
 HistCands(nm) == { Cand(nm, T, VarsFor(T), r) : T \in { T \in HistTypes(nm) : RestT(T, Len(ArgTys(T))) = B }, r \in {cTrue, App(Neg, cTrue)} }
                  \cup { Cand(nm, T, <<VarAt(1, TA)>>, VarAt(1, TA)) : T \in HistTypes(nm) \cap {FunT(TA,TA)} }
+HistCands1 == { x \in HistCands("ov2") : x.rhs = cTrue }      \* three definitions in a row: every triple of instance types
 Histories == UNION { { <<a, b>> : a \in HistCands(nm), b \in HistCands(nm) } : nm \in {"ov2", "ov", "c"} }
-             \cup (IF Rich THEN { <<a, b, c>> : a \in HistCands("ov2"), b \in HistCands("ov2"), c \in HistCands("ov2") } ELSE {})
+             \cup (IF Rich THEN { <<a, b, c>> : a \in HistCands("ov2"), b \in HistCands("ov2"), c \in HistCands("ov2") }
+                         ELSE { <<a, b, c>> : a \in HistCands1, b \in HistCands1, c \in HistCands1 })
 
 \* ---------------------------------------------------------------- the machine
 VARIABLES thy, d, phase, queue
